@@ -210,6 +210,7 @@ func checkLoaded(wd g.WarriorData, d asm.Dialect, m int, text string) string {
 }
 
 func runC10(c *Ctx) {
+	runPinned(c, "C10")
 	n := int64(20000)
 	if c.Thorough() {
 		n = 1500000
